@@ -111,8 +111,36 @@ def apply_op(net, op):
         net.add_constraint(cur(op["row"]), op["limit"], op["name"])
     elif op["op"] == "remove":
         net.remove_constraint(op["name"])
+    elif op["op"].startswith("rej-"):
+        # a call the network must REFUSE (the caller catches the error and carries on)
+        from acnportal.acnsim.models import EVSE
+        try:
+            if op["op"] == "rej-add":            # Current naming an unregistered station
+                row = dict({ids[i]: 1.0 for i in range(min(n, 2))}, **{"NOT-REGISTERED": 1.0})
+                net.add_constraint(Current(row), op["limit"], op["name"])
+            elif op["op"] == "rej-update":       # missing constraint name
+                net.update_constraint("no-such-constraint", cur([1.0] * n), op["limit"])
+            elif op["op"] == "rej-remove":
+                net.remove_constraint("no-such-constraint")
+            elif op["op"] == "rej-register":     # EVSE registration after constraints exist
+                net.register_evse(EVSE("LATE-STATION", max_rate=32, min_rate=0), 208, 30)
+            else:
+                raise ValueError(op["op"])
+        except ValueError:
+            raise
+        except Exception as e:  # noqa
+            return type(e).__name__
+        raise AssertionError("%s was not refused" % op["op"])
     else:
         raise ValueError(op["op"])
+    return None
+
+
+def rand_rejected(rng, net, counter):
+    kinds = ["rej-add", "rej-add", "rej-update", "rej-remove"]
+    if net.constraint_matrix is not None:
+        kinds.append("rej-register")
+    return dict(op=rng.choice(kinds), name="r%d" % counter, limit=float(rng.choice([1.0, 10.0, 0.5, 1000.0])))
 
 
 def rand_op(rng, net, counter):
@@ -827,6 +855,18 @@ def gen_block(rng):
             ert = spec["rt"] if ort is None else ort
             focus_lin = rng.random() < 0.35
             X, colkinds = place(rng, A or [], L, cis, evt, ert, X, T, focus_lin)
+            if A and rng.random() < 0.05:
+                # long horizon: all-zero schedule with ONE loaded column, at an index around the multiples of 128
+                # or at the very end (a check that walks the schedule in blocks must not skip a period)
+                T = rng.choice([128, 129, 255, 256, 257, 300])
+                k = rng.choice([c for c in (127, 255, T - 1, 0, 128, 126, 256) if c < T])
+                X1 = rand_schedule(rng, len(ph), 1)
+                X1, ck = place(rng, A, L, cis, evt, ert, X1, 1, focus_lin)
+                X = [[0.0] * T for _ in range(len(ph))]
+                for i in range(len(ph)):
+                    X[i][k] = X1[i][0]
+                colkinds = ck + ["long-T%d-col%d" % (T, k)]
+                zero_tol = False
             if zero_tol and A and T > 0 and rng.random() < 0.9:
                 # between limit + explicit (zero) tolerance and limit + the network's own tolerance
                 X, ok = place_between_tolerances(A, L, cis, X, (evt, ert), (spec["vt"], spec["rt"]), focus_lin,
@@ -837,10 +877,37 @@ def gen_block(rng):
             var = rand_var(rng)
             impl = run_impl(net, itf, X, T, mapping, ovt, ort, var)
             cases.extend(finish_cases(spec, A, L, ph, cis, X, T, mapping, mkind, colkinds, impl, ovt=ovt, ort=ort, var=var))
+        hist = dict(A=A, L=L, ops=[])
+
+        def rejected_stage(Ac, Lc, tag):
+            """a REFUSED call (caught here) must leave the network, and every checker's answer, as it was"""
+            op = rand_rejected(rng, net, len(hist["ops"]))
+            exc = apply_op(net, op)
+            hist["ops"].append(op)
+            Ar, Lr, phr = read_back(net)
+            changed = (Ar, Lr, phr) != (Ac, Lc, ph) or len(net.constraint_index) != len(Lc)
+            out = []
+            for _ in range(2):
+                T = rng.choice([1, 1, 2])
+                X = rand_schedule(rng, len(ph), T)
+                X, colkinds = place(rng, Ac or [], Lc, cis, spec["vt"], spec["rt"], X, T, rng.random() < 0.3)
+                mapping, mkind = make_mapping(rng, X, T)
+                var = rand_var(rng)
+                impl = run_impl(net, itf, X, T, mapping, var=var)
+                if changed:
+                    impl["notes"].insert(0, "a refused call (%s -> %s) changed the network: limits %s -> %s, %d constraint names" % (
+                        op["op"], exc, Lc[:3], Lr[:3], len(net.constraint_index)))
+                cs = finish_cases(spec, Ac, Lc, ph, cis, X, T, mapping, mkind + "/after-" + op["op"] + tag, colkinds, impl, var=var)
+                for c in cs:
+                    c["input"]["history"] = dict(A=hist["A"], L=hist["L"], ops=[dict(o) for o in hist["ops"]])
+                out.extend(cs)
+            return out
+
+        if rng.random() < 0.6:
+            cases.extend(rejected_stage(A, L, ""))
         # ---- mutate the network between queries, on the SAME Simulator / Interface objects: the interface
         # has already produced an InfrastructureInfo; all three checkers must follow the change
         if A and rng.random() < 0.7:
-            hist = dict(A=A, L=L, ops=[])
             for step in range(rng.choice([1, 1, 2, 3])):
                 old_names = list(net.constraint_index)
                 old_L = [float(x) for x in net.magnitudes]
@@ -870,6 +937,8 @@ def gen_block(rng):
                     for c in cs:
                         c["input"]["history"] = dict(A=hist["A"], L=hist["L"], ops=[dict(o) for o in hist["ops"]])
                     cases.extend(cs)
+                if rng.random() < 0.3:
+                    cases.extend(rejected_stage(A2, L2, "-late"))
     return cases
 
 
